@@ -514,26 +514,34 @@ func (g *gen) create() {
 		ib.MstoreBytes(0, rt).Push(uint64(len(rt))).Push(0).Op(asm.RETURN)
 	}
 	init := ib.Bytes()
-	b.MstoreBytes(0x200, init)
 	create2 := f >= 5 && g.r.Bool()
-	if create2 {
-		b.Push(uint64(g.r.Intn(3)))
-	}
+	salt := uint64(g.r.Intn(3))
 	size := uint64(len(init))
 	if g.r.Intn(8) == 0 {
 		size = uint64(g.r.Intn(60000)) // large init code (EIP-3860 boundary on Shanghai)
 	}
 	vals := []uint64{0, 0, 1, 1 << 62}
-	b.Push(size).Push(0x200).Push(vals[g.r.Intn(len(vals))])
-	if create2 {
-		b.Op(asm.CREATE2)
-	} else {
-		b.Op(asm.CREATE)
+	value := vals[g.r.Intn(len(vals))]
+	emit := func() {
+		b.MstoreBytes(0x200, init)
+		if create2 {
+			b.Push(salt)
+		}
+		b.Push(size).Push(0x200).Push(value)
+		if create2 {
+			b.Op(asm.CREATE2)
+		} else {
+			b.Op(asm.CREATE)
+		}
+		g.sink()
 	}
-	g.sink()
+	emit()
+	if create2 && g.r.Intn(3) == 0 {
+		emit() // the same CREATE2 again: an address collision unless the first one failed
+	}
 }
 
-// Program returns one contract body.
+// Program draws one program.
 func Program(r *rng.R, u Universe, o Opts) []byte {
 	code, _ := ProgramSites(r, u, o)
 	return code
